@@ -153,7 +153,10 @@ def gen_value(rng, t):
     if k == "opt":
         return None if rng.random() < 0.3 else gen_value(rng, t[1])
     if k == "union":
-        return gen_value(rng, rng.choice(t[1]))
+        mem = rng.choice(t[1])
+        if mem == "int" and "float" in t[1]:     # an int that float() cannot hold exactly is outside the float model
+            return rng.randint(-10 ** 6, 10 ** 6)
+        return gen_value(rng, mem)
     if k == "list":
         return [gen_value(rng, t[1]) for _ in range(rng.randint(0, 3))]
     if k == "dict":
